@@ -191,7 +191,9 @@ class ParticleSwarmSampler(BaseSampler):
         existing_losses: NDArray[np.float64],
     ) -> NDArray[np.float64]:
         """Sample a batch of parameters."""
-        if not self.is_set_up:
+        if not self.is_set_up or len(existing_points) == 0:
+            # (re)start the swarm: this is the first call, or nothing has been evaluated yet
+            # (e.g. the batch proposed by the previous call failed before being recorded)
             self._set_up(search_space.dims)
             self._previous_batch_index_start = len(existing_points)
             return digitize_data(
